@@ -102,8 +102,8 @@ class Env:
 
 
 def unit_eq(a, b):
-  return (a.constants == b.constants and a.type_params == b.type_params and
-          a.classes == b.classes and a.functions == b.functions and a.aliases == b.aliases)
+  from vf.oracle import c11_denote
+  return c11_denote.unit_eq(a, b)
 
 
 # ---------------------------------------------------------------------------
@@ -383,8 +383,10 @@ class Judge:
     self.samples = []
     self.violations = []
     self.counters = {}
-    self.key_cache = {}     # rough key -> (final key, minimal settings)
+    self.key_cache = {}     # rough key -> final key
     self.per_key = {}
+    self.tables = {"settings": {}, "mechanisms": {}}
+    self.cpu0 = time.process_time()
 
   def count(self, k, n=1):
     self.counters[k] = self.counters.get(k, 0) + n
@@ -405,18 +407,21 @@ class Judge:
     return any(p["what"] == what for p in c.problems)
 
   # .. one evaluation ......................................................
-  def judge(self, unit, deps, st, den, origin, unit_text=None, feats=()):
+  def judge(self, unit, deps, st, den, origin, unit_text=None, feats=(), extra=None,
+            count_eval=True):
     """Runs Optimize twice on `unit` and applies the three clauses."""
     env = self.env
     lab = label(st)
+    self.ctx = dict(extra or {})
     try:
       o1 = env.opt(unit, deps, st)
     except Exception as e:   # pylint: disable=broad-except
       self.count(f"optimize_raised[{type(e).__name__}]")
       self.count("not_judged_optimize_raised")
       return
-    self.n += 1
-    self.count("settings[" + lab + "]")
+    if count_eval:
+      self.n += 1
+    self.tables["settings"][lab] = self.tables["settings"].get(lab, 0) + 1
     lossless = is_lossless(st)
     cmp = env.dn.compare_units(unit, o1, den, lossless=lossless, max_union=st["max_union"] or 7)
     self.count("sites_compared", cmp.sites)
@@ -488,13 +493,14 @@ class Judge:
     return "?"
 
   def _emit(self, key, witness):
+    for k, v in getattr(self, "ctx", {}).items():
+      witness.setdefault(k, v)
     n = self.per_key.get(key, 0)
     self.per_key[key] = n + 1
     if n < 3:
       witness["key"] = key
       self.violations.append(witness)
-    else:
-      self.count("repeats_of[" + key + "]")
+    self.tables["mechanisms"][key] = self.tables["mechanisms"].get(key, 0) + 1
 
   def _report_idem(self, unit, deps, st, o1, o2, how, origin, unit_text):
     env = self.env
@@ -517,8 +523,8 @@ class Judge:
       self._classify_idem(small, deps, st, origin, unit_text, path)
     if not done:
       p, q = trace_idempotence(env, unit, deps, st)
-      key = (f"not idempotent: {p} has work left after {q} [needs {flags(st)}; whole unit, "
-             "not reproduced on a single declaration]")
+      key = (f"not idempotent ({'lossless' if is_lossless(st) else 'non-default'} settings): {p} "
+             f"has work left after {q}; whole unit, not reproduced on a single declaration")
       self._emit(key, {"origin": origin, "settings": st, "unit_text": unit_text,
                        "first": env.text(o1)[:4000], "second": env.text(o2)[:4000]})
 
@@ -528,23 +534,35 @@ class Judge:
     return trace_idempotence(self.env, unit, deps, st, validate=False) == pair
 
   def _classify_idem(self, small, deps, st, origin, unit_text, path):
-    """Key = (P, Q, minimal flags under which the same pass pair shows).  A rough
-    (P, Q, lossy, remove_mutable) is mapped to the final key once per child.  Shrinking
-    of the smallest witness per key happens later, in a separate task."""
+    """P = first pass that changes the optimised unit on the second run, Q = the pass of the
+    first run after which P has work again.  If the same pair shows under pytype's lossless
+    settings for this declaration the key is (P, Q); otherwise (lossy / remove_mutable /
+    max_union<7 needed) the key is P alone - the non-default pipelines re-create work for
+    almost every pass, and a closed key set matters more there than the pair.  A rough
+    (P, Q, lossy, remove_mutable, max_union<7) is mapped to the final key once per child.
+    Shrinking of the smallest witness per key happens later, in a separate task."""
     env = self.env
     p, q = trace_idempotence(env, small, deps, st, validate=False)
-    rough = (p, q, st["lossy"], st["remove_mutable"])
+    rough = (p, q, st["lossy"], st["remove_mutable"], st["max_union"] != 7)
     ent = self.key_cache.get(rough)
     if ent is None:
-      st_min = minimal_settings(st, lambda s_: self._idem_with_pair(small, deps, s_, (p, q)))
-      p2, q2 = trace_idempotence(env, small, deps, st_min, validate=True)
-      key = f"not idempotent: {p2} has work left after {q2} [needs {flags(st_min)}]"
-      self.key_cache[rough] = ent = (key, st_min)
+      cls = "non-default settings only"
+      try:
+        if is_lossless(st) or self._idem_with_pair(small, deps, dict(DEFAULTS), (p, q)):
+          cls = "lossless settings"
+      except Exception:   # pylint: disable=broad-except
+        pass
+      p2, q2 = trace_idempotence(env, small, deps, st, validate=True)
+      if cls == "lossless settings":
+        key = f"not idempotent under the lossless settings: {p2} has work left after {q2}"
+      else:
+        key = f"not idempotent under non-default settings: {p2} has work left on the second run"
+      self.key_cache[rough] = ent = key
       self.count("distinct_rough_mechanisms")
-    key, st_min = ent
+    key = ent
     decl, _ = _the_decl(small)
     witness = {"origin": origin, "settings": st, "unit_text": unit_text, "declaration": path,
-               "what": "not idempotent", "pass_pair": [p, q], "minimal_settings": st_min,
+               "what": "not idempotent", "pass_pair": [p, q],
                "decl_size": len(env.text(decl)) if decl is not None else 10 ** 6}
     self._emit(key, witness)
 
@@ -563,13 +581,17 @@ class Judge:
                "declaration": prob["path"], "problem": prob}
     if small is None:
       pname = trace_compare(env, unit, deps, st, den, what)
-      self._emit(self._compare_key(what, pname, label(st), prob), witness)
+      self._emit(self._compare_key(what, pname, flags(st), prob), witness)
       return
     st_min = minimal_settings(st, lambda s: self._has_problem(small, deps, s, den, what))
     if what == "overwide" and not is_lossless(st_min):
       st_min = st
-    self.count("witnesses_shrunk")
-    small2 = shrink(env, small, lambda u: self._has_problem(u, deps, st_min, den, what))
+    self.n_shrunk = getattr(self, "n_shrunk", 0) + 1
+    if self.n_shrunk <= 6:
+      self.count("witnesses_shrunk")
+      small2 = shrink(env, small, lambda u: self._has_problem(u, deps, st_min, den, what))
+    else:
+      small2 = small
     o1 = env.opt(small2, deps, st_min)
     c = env.dn.compare_units(small2, o1, den, lossless=is_lossless(st_min),
                              max_union=st_min["max_union"] or 7)
@@ -580,7 +602,7 @@ class Judge:
     d1, _ = _the_decl(o1)
     witness.update(minimal_settings=st_min, minimal_input=env.text(decl),
                    optimised=env.text(d1) if d1 is not None else None, minimal_problem=p2)
-    self._emit(self._compare_key(what, pname, label(st_min), p2), witness)
+    self._emit(self._compare_key(what, pname, flags(st_min), p2), witness)
 
   @staticmethod
   def _compare_key(what, pname, lab, prob):
@@ -596,7 +618,8 @@ class Judge:
 
   def result(self):
     return {"n": self.n, "fps": self.fps, "samples": self.samples, "violations": self.violations,
-            "counters": self.counters, "n_optimize": self.env.n_optimize,
+            "counters": self.counters, "n_optimize": self.env.n_optimize, "tables": self.tables,
+            "cpu_s": round(time.process_time() - self.cpu0, 2),
             "lenient": self.env.dn.STATS.get("lenient", 0)}
 
 
@@ -620,7 +643,7 @@ def child_gen(arg):
   J = Judge(env)
   rng = random.Random(arg["seed"])
   feats_seen = {}
-  t0 = time.time()
+  t0 = time.process_time()
   for i in range(arg["count"]):
     name = f"g{arg['seed'] % 100000}x{i}"
     u = pytdtypes.generate_unit(random.Random(f"{arg['seed']}-{i}"), name)
@@ -641,7 +664,7 @@ def child_gen(arg):
                 unit_text=u["text"], feats=u["features"])
     finally:
       env.unload(name)
-    if time.time() - t0 > arg.get("soft_budget", 1e9):
+    if time.process_time() - t0 > arg.get("soft_budget", 1e9):
       J.count("units_skipped_soft_budget", arg["count"] - i - 1)
       break
   r = J.result()
@@ -681,6 +704,22 @@ HAND_WRITTEN = [
     "def f(x: list[int]) -> None:\n    x = list[Union[int, str]]",
     "def f(x: T, y: list[T]) -> T: ...",
     "def f(x: Union[A, B], y: Union[tuple[int], tuple[str]]) -> Union[D, C]: ...",
+    # signatures that become identical / mergeable only after a later pass
+    "def f(x: Union[list[int], list[str]]) -> int: ...\ndef f(x: list[Union[int, str]]) -> int: ...",
+    "def f(x: Union[list[int], list[str]]) -> int: ...\ndef f(x: list[Union[int, str]]) -> str: ...",
+    "def f(x: list[Any]) -> int: ...\ndef f(x: list) -> int: ...",
+    "def f(x: Union[int, bool]) -> int: ...\ndef f(x: int) -> int: ...",
+    "def f(x: Union[A, E, int, str, bytes, float, None, complex]) -> int: ...\ndef f(x: Any) -> int: ...",
+    "def f(x: Union[A, E, int, str, bytes, float, None, complex]) -> int: ...\ndef f(x: Any) -> str: ...",
+    "x: Union[Callable, type[object]]",
+    "x: Union[Callable, type[Union[A, E, int, str, bytes, float, None, complex]]]",
+    "def f(x: Union[Callable, type[Union[A, E, int, str, bytes, float, None, complex]]]) -> int: ...",
+    "x: Union[A, E, int, str, bytes, float, None]",
+    "x: Union[A, E, int, str, bytes, float, complex, None]",
+    "x: list[Union[A, E, int, str, bytes, float, complex, None]]",
+    "x: Union[list[Union[A, E, int, str]], list[Union[bytes, float, complex, None]]]",
+    "class K:\n    def m(self, x: int) -> int: ...\n    def m(self, x: Union[int, bool]) -> str: ...",
+    "class G(Generic[T]):\n    def m(self: G[int], x: T) -> T: ...",
 ]
 
 
@@ -717,6 +756,7 @@ def child_programs(arg):
     n_prog += 1
     for rec in dn.RECORDS[before:]:
       _absorb_monitor_record(J, rec, {"kind": "emitted stub", "seed": arg["seed"], "index": i}, src)
+    del dn.RECORDS[before:]
   r = J.result()
   r["monitor"] = {k: v for k, v in dn.MONITOR.items() if k in ("calls", "checked", "errors")}
   r["programs"] = n_prog
@@ -734,21 +774,31 @@ def _absorb_monitor_record(J, rec, origin, src):
   J.count("membership_evaluations", rec.get("values", 0))
   J.count("changed_declarations", rec.get("changed_sites", 0))
   J.count("idempotence_reruns")
-  J.count("settings[" + label(rec["settings"]) + "](monitor)")
+  lab = label(rec["settings"]) + " (in-situ)"
+  J.tables["settings"][lab] = J.tables["settings"].get(lab, 0) + 1
   if rec.get("changed_sites"):
-    J.fps.append(common.fp([src, "monitor"]))
+    J.fps.append(common.fp([src, "in-situ"]))
   if len(J.samples) < 2 and rec.get("changed_sites"):
     J.samples.append({"origin": origin, "changed_declarations": rec["changed_sites"],
-                      "sites": rec.get("sites")})
-  for p in rec["problems"]:
-    J._emit(J._compare_key(p["what"], "?", label(rec["settings"]) + ", in-situ", p),   # pylint: disable=protected-access
-            {"origin": origin, "program": src, "problem": p, "before": rec.get("before_text"),
-             "after": rec.get("after_text")})
-  if rec["idempotent"] is False:
-    J.count("not_idempotent_cases")
-    J._emit(f"not idempotent [{label(rec['settings'])}, in-situ]: emitted stub changes when optimised again",   # pylint: disable=protected-access
-            {"origin": origin, "program": src, "first": rec.get("after_text"),
-             "second": rec.get("again_text")})
+                      "sites": rec.get("sites"), "program_head": src[:300]})
+  if rec["problems"] or rec["idempotent"] is False:
+    J.count("monitor_alarms")
+    node, deps = rec.get("_node"), rec.get("_deps")
+    before = sum(J.tables["mechanisms"].values())
+    if node is not None:
+      dn = J.env.dn
+      den = dn.Denote(dn.hierarchy_for(node, deps), dn.unit_class_names(node))
+      J.judge(node, deps, rec["settings"], den, origin, extra={"program": src}, count_eval=False)
+    after = sum(J.tables["mechanisms"].values())
+    if after == before:      # could not be re-derived off-line: report what the monitor saw
+      J.ctx = {"program": src}
+      for p in rec["problems"]:
+        J._emit(J._compare_key(p["what"], "?", flags(rec["settings"]) + ", in-situ", p),   # pylint: disable=protected-access
+                {"origin": origin, "problem": p, "before": rec.get("before_text"),
+                 "after": rec.get("after_text")})
+      if rec["idempotent"] is False:
+        J._emit("not idempotent: emitted stub changes when optimised again [in-situ, not re-derived]",   # pylint: disable=protected-access
+                {"origin": origin, "first": rec.get("after_text"), "second": rec.get("again_text")})
 
 
 BUNDLED = ["builtins", "typing", "collections", "enum", "attr", "attrs", "numpy", "mypy_extensions",
@@ -789,9 +839,103 @@ def child_bundled(arg):
   return J.result()
 
 
+def _capture_optimize_input(src):
+  """(node, deps, settings) of the Optimize call the real pipeline makes for `src`."""
+  from vf import pt
+  from pytype.pytd import optimize
+  got = []
+  cur = optimize.Optimize
+
+  def spy(node, deps=None, *a, **kw):
+    if not got:
+      got.append((node, deps))
+    return cur(node, deps, *a, **kw)
+  optimize.Optimize = spy
+  try:
+    pt.analyze(src)
+  finally:
+    optimize.Optimize = cur
+  return got[0] if got else (None, None)
+
+
+def reload_unit(env, w):
+  """(unit, deps, den, cleanup) for a recorded witness."""
+  from vf.gen import pytdtypes
+  dn = env.dn
+  origin = w.get("origin") or {}
+  if w.get("unit_text"):
+    name = "w" + common.fp(w["unit_text"])[:8]
+    unit = env.load_text(w["unit_text"], name)
+    deps = env.loader.concat_all()
+    h = dn.hierarchy_for(unit, deps)
+    atoms = [f"{name}.{c}" for c in pytdtypes.USER if f"{name}.{c}" in h.bases]
+    atoms += [a for a in dn.unit_class_names(unit) if a not in atoms]
+    return unit, deps, dn.Denote(h, atoms), (lambda: env.unload(name)), name
+  if origin.get("kind") == "bundled stub":
+    for m in BUNDLED:
+      try:
+        if m not in ("builtins", "typing"):
+          env.loader.import_name(m)
+      except Exception:   # pylint: disable=broad-except
+        pass
+    m = origin["module"]
+    unit = env.loader.builtins if m == "builtins" else (
+        env.loader.typing if m == "typing" else env.loader.import_name(m))
+    deps = env.loader.concat_all()
+    den = dn.Denote(dn.hierarchy_for(unit, deps), dn.unit_class_names(unit, limit=40))
+    return unit, deps, den, (lambda: None), m
+  if w.get("program"):
+    unit, deps = _capture_optimize_input(w["program"])
+    if unit is None:
+      raise ValueError("the pipeline did not call Optimize")
+    den = dn.Denote(dn.hierarchy_for(unit, deps), dn.unit_class_names(unit))
+    return unit, deps, den, (lambda: None), unit.name
+  raise ValueError("witness cannot be reloaded")
+
+
+def child_shrink(arg):
+  """Shrinks one non-idempotence witness, preserving its pass pair."""
+  env = Env()
+  J = Judge(env)
+  w = arg["witness"]
+  unit, deps, _, cleanup, name = reload_unit(env, w)
+  out = {"shrunk": False}
+  try:
+    path = w["declaration"]
+    if w.get("unit_text") and "." in path:
+      path = name + "." + path.split(".", 1)[1]      # module prefix of the reloaded copy
+    small = None
+    for _, cand in single_decl_units(unit, {path}):
+      small = cand
+      break
+    if small is None:
+      return out
+    st = dict(w["settings"])
+    pair = tuple(w["pass_pair"])
+    if not J._idem_with_pair(small, deps, st, pair):   # pylint: disable=protected-access
+      return out
+    st = minimal_settings(st, lambda s_: J._idem_with_pair(small, deps, s_, pair))   # pylint: disable=protected-access
+    small2 = shrink(env, small, lambda u: J._idem_with_pair(u, deps, st, pair),   # pylint: disable=protected-access
+                    budget=arg.get("budget", 250))
+    o1 = env.opt(small2, deps, st)
+    o2 = env.opt(o1, deps, st)
+    decl, _ = _the_decl(small2)
+    d1, _ = _the_decl(o1)
+    d2, _ = _the_decl(o2)
+    st = minimal_settings(st, lambda s_: J._idem_with_pair(small2, deps, s_, pair))   # pylint: disable=protected-access
+    out.update(shrunk=True, minimal_settings=st, minimal_flags=flags(st), minimal_input=env.text(decl),
+               first_run=env.text(d1) if d1 is not None else None,
+               second_run=env.text(d2) if d2 is not None else None,
+               site=J._site(o1, o2),   # pylint: disable=protected-access
+               pass_pair_validated=list(trace_idempotence(env, small2, deps, st, validate=True)))
+  finally:
+    cleanup()
+  return out
+
+
 def child(arg):
   return {"gen": child_gen, "hand": child_hand, "programs": child_programs,
-          "bundled": child_bundled}[arg["kind"]](arg)
+          "bundled": child_bundled, "shrink": child_shrink}[arg["kind"]](arg)
 
 
 # ---------------------------------------------------------------------------
@@ -802,13 +946,13 @@ def _tasks(tier, seed):
   rng = random.Random(f"{PID}-{seed}-tasks")
   tasks = []
   if tier == "quick":
-    gen_batches, gen_count, nsettings, all_every = 30, 40, 5, 20
+    gen_batches, gen_count, nsettings, all_every = 24, 36, 5, 18
     prog_batches, prog_count = 10, 10
     bundled_sets = [(["builtins"], 3, False), (["typing"], 4, False),
                     ([m for m in BUNDLED if m not in ("builtins", "typing")], 6, False)]
-    soft = 70
+    soft = 45
   else:
-    gen_batches, gen_count, nsettings, all_every = 96, 120, 8, 10
+    gen_batches, gen_count, nsettings, all_every = 64, 120, 8, 10
     prog_batches, prog_count = 32, 25
     bundled_sets = [(["builtins"], 0, True), (["typing"], 0, True),
                     ([m for m in BUNDLED if m not in ("builtins", "typing")], 0, True)]
@@ -848,6 +992,9 @@ def run(tier, seed):
   kinds = {"gen": 0, "hand": 0, "programs": 0, "bundled": 0}
   monitor = {"calls": 0, "checked": 0, "errors": 0}
   features = {}
+  found = []
+  cpu = {}
+  tables = {"settings": {}, "mechanisms": {}}
   for res in pool.run_tasks(tasks):
     if not res.get("ok"):
       ck.child_failed(res, f"C11 batch {res.get('task')}")
@@ -861,6 +1008,10 @@ def run(tier, seed):
     for k, v in r["counters"].items():
       ck.count(k, v)
     ck.count("optimize_calls_by_harness", r.get("n_optimize", 0))
+    cpu[kind] = round(cpu.get(kind, 0) + r.get("cpu_s", 0), 1)
+    for tname, tab in (r.get("tables") or {}).items():
+      for k, v in tab.items():
+        tables[tname][k] = tables[tname].get(k, 0) + v
     ck.count("lenient_membership_answers", r.get("lenient", 0))
     for k, v in (r.get("monitor") or {}).items():
       monitor[k] += v
@@ -868,9 +1019,13 @@ def run(tier, seed):
       ck.count("programs_analysed", r["programs"])
     for f, n in (r.get("features") or {}).items():
       features[f] = features.get(f, 0) + n
-    for w in r["violations"]:
-      ck.violation(w["key"], w)
+    found.extend(r["violations"])
+  _shrink_and_report(ck, found)
   ck.extra["evaluations_by_workload"] = kinds
+  ck.extra["child_cpu_seconds_by_workload"] = cpu
+  ck.extra["evaluations_by_settings"] = dict(sorted(tables["settings"].items()))
+  ck.extra["cases_by_mechanism"] = dict(sorted(tables["mechanisms"].items()))
+  ck.count("settings_vectors_exercised", len([k for k in tables["settings"] if "in-situ" not in k]))
   ck.extra["monitor"] = monitor
   ck.extra["generator_features_seen"] = features
   ck.extra["settings_vectors"] = 48
@@ -890,6 +1045,33 @@ def run(tier, seed):
   if ck.counters.get("idempotence_reruns", 0) == 0:
     ck.inconclusive("no idempotence re-run happened")
   return ck.finish()
+
+
+def _shrink_and_report(ck, found):
+  """One witness per unlisted non-idempotence mechanism (the smallest) is shrunk in a
+  separate task; then everything is reported under its mechanism key."""
+  by_key = {}
+  for w in found:
+    by_key.setdefault(w["key"], []).append(w)
+  tasks = []
+  for key, ws in by_key.items():
+    ws.sort(key=lambda w: (w.get("decl_size", 10 ** 6), len(w.get("unit_text") or "")))
+    if key in ck.known or ws[0].get("what") != "not idempotent" or "pass_pair" not in ws[0]:
+      continue
+    tasks.append({"fn": "vf.checks.c11:child", "id": key, "timeout": 300,
+                  "arg": {"kind": "shrink", "witness": ws[0]}})
+  shrunk = {}
+  for res in pool.run_tasks(tasks) if tasks else ():
+    if res.get("ok") and res["result"].get("shrunk"):
+      shrunk[res["task"]] = res["result"]
+    else:
+      ck.count("witness_shrink_failed")
+  for key, ws in sorted(by_key.items()):
+    for i, w in enumerate(ws):
+      if i == 0 and key in shrunk:
+        w = dict(w)
+        w["shrunk"] = shrunk[key]
+      ck.violation(key, w)
 
 
 def replay(rec):
